@@ -205,3 +205,49 @@ def check_prior_pair(family):
 
 for fam in FAMILIES:
     check_prior_pair(fam)
+
+
+# ---------------------------------------------------------------------------------------------- get_likelihood_function (C15, C16)
+def likelihood_fn_contract(clsname, field):
+    @fuc('pid_interfaces', clsname + '.get_likelihood_function', props=['C15', 'C16'], variant='uniform-prior')
+    def _(c):
+        def build(ex, cls):
+            fr = ex.frame
+            a, b, LLv = ex.fresh('a', REAL), ex.fresh('b', REAL), ex.fresh('LLvalue', REAL)
+            fr.env.update(dict(a=a, b=b, LLvalue=LLv))
+            calls = []
+            fr.env['_calls'] = calls
+            LL = Stub('likelihood', methods={'set_init_params': lambda ex_, d: calls.append(('set', dict(d))),
+                                             'py_log_likelihood': lambda ex_: (calls.append(('ll',)), LLv)[1]})
+            o = ex.allocate(cls, 'self')
+            dflt = {'p': ex.fresh('p_default', REAL), 'q': ex.fresh('q_default', REAL)}
+            fr.env['dflt'] = dflt
+            o.fields.update({field: LL, 'params_to_estimate': ['p'], 'prior': {'p': ['uniform', a, b]}, 'default_parameters': dflt,
+                             'log_space_parameters': False, 'debug': False, 'M': None})
+            return o
+        c.concrete_self = build
+
+        def pv(ex):
+            v = ex.fresh('theta', REAL)
+            ex.frame.env['theta'] = v
+            return [v]
+        c.hints['params'] = dict(value=pv)
+        c.requires('a < b')
+        c.ensures('implies(a <= theta and theta <= b, result == ln(1 / (b - a)) + LLvalue)', label='log-prior-plus-log-likelihood')
+        c.ensures('implies(not (a <= theta and theta <= b), result == -float("inf"))', label='minus-infinity-outside-the-support')
+
+        def check(ex, fr, result):
+            calls = fr.env['_calls']
+            if isinstance(result, float):
+                ex.oblige('post', tm.mk_bool(not calls), label='no-simulation-when-rejected')
+            else:
+                ok = (len(calls) == 3 and calls[0] == ('set', fr.env['dflt']) and calls[1][0] == 'set' and list(calls[1][1].keys()) == ['p']
+                      and calls[1][1]['p'] is fr.env['theta'] and calls[2] == ('ll',))
+                ex.oblige('post', tm.mk_bool(bool(ok)), label='defaults-then-theta-then-likelihood',
+                          note='parameters in force during the likelihood are defaults overridden by theta (reset on every evaluation)')
+        c.after(check)
+        c.opt(verify_only=True)
+
+
+likelihood_fn_contract('DeterministicInference', 'LL_det')
+likelihood_fn_contract('StochasticInference', 'LL_stoch')
